@@ -244,8 +244,10 @@ def build_leaf(spec, shape, ctxk):
         sq = build_leaf(spec["squash"], shape, ctxk)
         cdf = build_leaf(spec["cdf"], shape, ctxk)
         m = T.CompositeCDFTransform(sq.module, cdf.module)
-        return Built(m, shape, elementwise=True, smooth=cdf.smooth, A_inv=2e-6, specials=[0.0], tags=["spline", "compositecdf"],
-                     parts=None)
+        bb = Built(m, shape, elementwise=True, smooth=cdf.smooth, A_inv=2e-6, specials=[0.0], tags=["spline", "compositecdf"],
+                   parts=None)
+        bb.cdf_parts = (sq, cdf)     # the objects handed to the constructor (C08 chains them by hand)
+        return bb
     if t == "glu":
         return Built(T.GatedLinearUnit(), shape, elementwise=True, uses_ctx=True, tags=["glu"])
     if t in ("perm", "randperm", "revperm"):
@@ -1145,11 +1147,15 @@ def one_sided_logdet_interval(fo, X, i, elementwise, h=1e-7):
                     d = 2 * ds[1] - ds[0]
                     if abs(ds[1] - ds[0]) > 1e-4 * (abs(d) + 1e-300) or not d > 0 and not d < 0:
                         return None, None
-                    cand.append(math.log(abs(d)))
+                    # rounding of the two outputs being subtracted: 5 ulp(|f|) / (|f'| h) relative, after the extrapolation
+                    noise = 5 * 2.3e-16 * (1.0 + abs(float(base[j]))) / (abs(d) * h / 2 * (1.0 + abs(float(xi[j]))))
+                    if noise > 1e-2:
+                        return None, None      # slope too small against the size of the outputs: differences cannot resolve it
+                    cand.append((math.log(abs(d)), noise))
                 if not cand:
                     return None, None
-                lo_t += min(cand)
-                hi_t += max(cand)
+                lo_t += min(c_ - n_ for c_, n_ in cand)
+                hi_t += max(c_ + n_ for c_, n_ in cand)
             return lo_t, hi_t
         for sgn in (-1.0, 1.0):
             try:
